@@ -1987,6 +1987,11 @@ impl<'a> Evaluator<'a> {
                         _ => Ok(Val::none()),
                     },
                     "flatten" if is_some || is_none => Ok(if is_some { inner.unwrap() } else { Val::none() }),
+                    "unwrap_or_default" if mc.args.is_empty() && matches!(&recv, Val::Ctor(n, ..) if n == "Some" || n == "Ok") => match recv {
+                        Val::Ctor(_, p, _) => Ok(p.into_iter().next().unwrap_or(Val::Unit)),
+                        _ => unreachable!(),
+                    },
+                    "unwrap_or_default" if mc.args.is_empty() && matches!(&recv, Val::Ctor(n, ..) if n == "None" || n == "Err") => Ok(Val::Opaque("Default::default()".into())),
                     "cmp" | "partial_cmp" if mc.args.len() == 1 && cmp_vals(&recv, &recv).is_some() => {
                         let other = self.eval(&mc.args[0], env)?;
                         let o = cmp_vals(&recv, &other).ok_or_else(|| format!(".cmp() of {} and {}", recv.show(), other.show()))?;
